@@ -113,9 +113,38 @@ def gen_intervals(rng, n=None):
         for iv in out:
             if rng.random() < 0.5:
                 iv[1] = None
+    elif out and k < 0.30:  # a second record with the same start and another end (a different key of the history dict)
+        i = rng.randrange(len(out))
+        s_, e_ = out[i]
+        if e_ is not None and s_ is not None:
+            e2 = rng.choice([e_ + 10**6, max(s_ + 1, e_ - 10**6), None, e_ + rng.randrange(1, Y)])
+            out.insert(rng.choice([i, i + 1]), [s_, None if e2 is None else min(e2, DMAX)])
     if rng.random() < 0.15:
         rng.shuffle(out)
     return out
+
+
+def count_shapes(ctx, case):
+    """which shapes of histories a case holds (coverage of _create_history's dictionary semantics and of short gaps)"""
+    feats = set()
+    for st in case["source"]:
+        for ivs in ([[(r[0], r[1]) for r in (st.get(b) or [])] for b in ("ant", "rcv", "ecc")]
+                    + [[(r[1], r[2]) for r in (st.get("epochs") or [])], [(r[1], r[2]) for r in (st.get("pv") or [])]]):
+            keys = [tuple(iv) for iv in ivs]
+            if len(set(keys)) < len(keys):
+                feats.add("same-start-and-end-twice(overwrite)")
+            starts = {}
+            for s_, e_ in keys:
+                starts.setdefault(s_, set()).add(e_)
+            if any(len(v) > 1 for v in starts.values()):
+                feats.add("same-start-different-ends")
+            ends = [e_ for _, e_ in keys if e_ is not None]
+            if any(0 < s_ - e_ <= 30 * 10**6 for s_, _ in keys if s_ is not None for e_ in ends):
+                feats.add("gap<=30s" + (":ssc" if case["kind"] == "ssc" else ":snx"))
+            if len(keys) == 0:
+                feats.add("empty-history")
+    for f in feats:
+        ctx.count("history:" + f)
 
 
 def case_key(rng, name):
@@ -833,6 +862,7 @@ def run(ctx: Ctx):
                   "first_queries": case["queries"][:3], "n_queries": len(case["queries"])},
                  nontrivial=nontrivial)
         ctx.count(f"kind={case['kind']}")
+        count_shapes(ctx, case)
         ctx.count("corpus" if i < ncorpus else "systematic" if "label" in case else "random")
         check_case(ctx, drv, mods, case, rng)
         ctx.traces += len(case["queries"])
